@@ -360,7 +360,7 @@ func (cb publicKeyCallback) auth(session []byte, user string, c packetConn, rand
 		}
 		ok, err := validateKey(pub, algo, user, c)
 		if err != nil {
-			return authFailure, nil, err
+			return authFailure, methods, err
 		}
 		// OpenSSH 7.2-7.7 advertises support for rsa-sha2-256 and rsa-sha2-512
 		// in the "server-sig-algs" extension but doesn't support these
@@ -389,7 +389,7 @@ func (cb publicKeyCallback) auth(session []byte, user string, c packetConn, rand
 		}, algo, pubKey)
 		sign, err := as.SignWithAlgorithm(rand, data, underlyingAlgo(algo))
 		if err != nil {
-			return authFailure, nil, err
+			return authFailure, methods, err
 		}
 
 		// manually wrap the serialized signature in a string
@@ -407,13 +407,13 @@ func (cb publicKeyCallback) auth(session []byte, user string, c packetConn, rand
 		}
 		p := Marshal(&msg)
 		if err := c.writePacket(p); err != nil {
-			return authFailure, nil, err
+			return authFailure, methods, err
 		}
-		var success authResult
-		success, methods, err = handleAuthResponse(c)
+		success, newMethods, err := handleAuthResponse(c)
 		if err != nil {
-			return authFailure, nil, err
+			return authFailure, methods, err
 		}
+		methods = newMethods
 
 		// If authentication succeeds or partially succeeds, return immediately
 		// so the caller can select the next auth method. According to RFC 4252
